@@ -28,6 +28,7 @@ def run(tier, seed, replay=None):
         for w in (60, 100) if tier == "quick" else (40, 60, 80, 100, 120):
             se = RELEASED[(i + w) % 4]
             pts.append((f"{name}@w={w},se={se},v0", name, text, {"max_width": w, "style_edition": se}))
+    pts += universe.option_points(tier, seed)
     jobs = []
     for (pid, name, text, opts) in pts:
         if opts["style_edition"] not in RELEASED:
